@@ -155,3 +155,49 @@ func unstable(a, b map[string]string) []string {
 	sort.Strings(out)
 	return out
 }
+
+// scribble calls every niladic accessor of obj that returns a []byte and overwrites the returned slice (and does the
+// same, one level down, on the keys and parameters obj hands out).  An accessor that returned memory of the object
+// itself thereby changes the object; secretdata.Bytes values are not touched.
+func scribble(obj any, depth int) {
+	v := reflect.ValueOf(obj)
+	if !v.IsValid() || isNilValue(v) {
+		return
+	}
+	t := v.Type()
+	for i := 0; i < t.NumMethod(); i++ {
+		mt := t.Method(i).Type
+		if mt.NumIn() != 1 || mt.NumOut() == 0 || mt.NumOut() > 2 {
+			continue
+		}
+		ot := mt.Out(0)
+		if ot != bytesType && !(depth < 2 && (ot.Implements(keyIface) || ot.Implements(paramsIface))) {
+			continue
+		}
+		var res []reflect.Value
+		if p, _ := vt.Try(func() { res = v.Method(i).Call(nil) }); p || len(res) == 0 {
+			continue
+		}
+		if ot == bytesType {
+			b := res[0].Bytes()
+			for j := range b {
+				b[j] ^= 0xff
+			}
+			continue
+		}
+		if !isNilValue(res[0]) {
+			scribble(res[0].Interface(), depth+1)
+		}
+	}
+}
+
+// aliased lists the accessors whose value changes after the byte slices returned earlier were overwritten.
+func aliased(k any) []string {
+	before := accessors(k, 0)
+	scribble(k, 0)
+	out := unstable(before, accessors(k, 0))
+	if out == nil {
+		out = []string{}
+	}
+	return out
+}
